@@ -35,16 +35,17 @@ type DSpec struct {
 }
 
 type Case struct {
-	ID       int     `json:"id"`
-	Kind     string  `json:"kind"` // rest | fx | free
-	Req      string  `json:"req"`  // plain | ws | sse
-	DurNs    int64   `json:"dur_ns"`
-	ParentNs *int64  `json:"parent_ns"` // parent deadline, offset from the start; nil = none
-	H0       [][]any `json:"h0"`
-	Script   [][]any `json:"script"`
-	Fl       bool    `json:"fl"`     // the real writer is an http.Flusher
-	PShape   string  `json:"pshape"` // shape of the caller's context (ctxshape.go)
-	D        DSpec   `json:"d"`
+	ID       int               `json:"id"`
+	Kind     string            `json:"kind"` // rest | fx | free
+	Req      string            `json:"req"`  // plain | ws | sse
+	DurNs    int64             `json:"dur_ns"`
+	ParentNs *int64            `json:"parent_ns"` // parent deadline, offset from the start; nil = none
+	H0       [][]any           `json:"h0"`
+	Script   [][]any           `json:"script"`
+	Fl       bool              `json:"fl"`     // the real writer is an http.Flusher
+	PShape   string            `json:"pshape"` // shape of the caller's context (ctxshape.go)
+	Names    map[string]string `json:"names"`  // header names of the scripts' header keys (default "X-H<k>")
+	D        DSpec             `json:"d"`
 }
 
 type Out struct {
@@ -65,6 +66,7 @@ type Out struct {
 
 func runRest(c Case) (out Out) {
 	out = Out{ID: c.ID, RetAtD: -1, Sched: []string{}, HObs: [][]any{}}
+	setNames(c.Names)
 	gate := make(chan hcmd)
 	acks := make(chan hack, 4*len(c.Script)+16)
 	var sret atomic.Bool
